@@ -7,8 +7,9 @@
 //   format_excel_f64_ref, get_row_column, get_row.  Assumed: get_row_and_optional_column (proved in unit a1), get_dimension,
 //   xml_reader, FromStr for CellErrorType, float / integer parsing, the quick-xml model below.
 //   Specifications are schema automata written from ECMA-376 (CT_Rst, CT_Sst, CT_MergeCells, CT_Cell / ST_CellType, sheetData) over
-//   the event sequence, in terms of LOCAL names and UNESCAPED text; every clause that the code satisfies only for unprefixed names /
-//   without CDATA is split into a proved clause (with that antecedent) and a general clause that FAILS (findings/xlsxxml.json).
+//   the event sequence, in terms of LOCAL names and UNESCAPED text (namespace prefixes do not matter); every clause that the code
+//   satisfies only without CDATA is split into a proved clause (with that antecedent) and a general clause that FAILS
+//   (findings/xlsxxml.json).
 #![allow(unused_imports, dead_code, unused_variables, unused_mut, unused_assignments)]
 use vstd::prelude::*;
 use std::borrow::Cow;
@@ -475,8 +476,6 @@ pub open spec fn rst_scan(ev: Seq<Ev>, i: int, s: RstSt, closing: Seq<u8>) -> Rs
 pub open spec fn rst_item(ev: Seq<Ev>, i: int, closing: Seq<u8>) -> RstRes { rst_scan(ev, i, rst_init(), closing) }
 
 pub open spec fn no_cdata(ev: Seq<Ev>, a: int, b: int) -> bool { forall|k: int| a <= k < b && 0 <= k < ev.len() ==> !(#[trigger] ev[k].kind is CData) }
-/// the qualified name carries no namespace prefix
-pub open spec fn unprefixed(name: Seq<u8>) -> bool { local_of(name) == name }
 pub open spec fn ostr(o: Option<String>) -> Option<Seq<char>> { match o { Some(s) => Some(s@), None => None } }
 
 proof fn lemma_rst_end(ev: Seq<Ev>, i: int, s: RstSt, closing: Seq<u8>)
@@ -540,7 +539,7 @@ proof fn lemma_plain_names()
 proof fn witness_rst_plain()
     ensures ({ let ev = seq![ev_start(n_t()), ev_text(seq!['a', 'b']), ev_end(n_t()), ev_end(n_si())];
                let it = rst_item(ev, 0, n_si());
-               it.ok && !it.rich && it.text == Some(seq!['a', 'b']) && it.end == 3 && unprefixed(n_si()) && no_cdata(ev, 0, it.end) }),
+               it.ok && !it.rich && it.text == Some(seq!['a', 'b']) && it.end == 3 && no_cdata(ev, 0, it.end) }),
 {
     lemma_plain_names(); lemma_names_distinct();
     let ev = seq![ev_start(n_t()), ev_text(seq!['a', 'b']), ev_end(n_t()), ev_end(n_si())];
@@ -560,6 +559,23 @@ proof fn witness_rst_rich_phonetic()
     reveal_with_fuel(rst_scan, 13);
     assert(Seq::<char>::empty() + seq!['a'] =~= seq!['a']);
 }
+/// <x:si><x:r><x:t>a</x:t></x:r></x:si> (namespace prefix x:)  -->  rich, "a": prefixes do not matter
+proof fn witness_rst_prefixed()
+    ensures ({ let xsi = seq![0x78u8, 0x3au8, 0x73u8, 0x69u8]; let xr = seq![0x78u8, 0x3au8, 0x72u8]; let xt = seq![0x78u8, 0x3au8, 0x74u8];
+               let ev = seq![ev_start(xr), ev_start(xt), ev_text(seq!['a']), ev_end(xt), ev_end(xr), ev_end(xsi)];
+               let it = rst_item(ev, 0, xsi);
+               it.ok && it.rich && it.text == Some(seq!['a']) && it.end == 5 && no_cdata(ev, 0, it.end) }),
+{
+    let xsi = seq![0x78u8, 0x3au8, 0x73u8, 0x69u8]; let xr = seq![0x78u8, 0x3au8, 0x72u8]; let xt = seq![0x78u8, 0x3au8, 0x74u8];
+    reveal_with_fuel(colon_at, 3);
+    assert(colon_at(xsi, 0) == 1 && colon_at(xr, 0) == 1 && colon_at(xt, 0) == 1);
+    assert(local_of(xsi) =~= n_si() && local_of(xr) =~= n_r() && local_of(xt) =~= n_t());
+    lemma_names_distinct();
+    assert(n_t().len() != n_si().len() && n_r().len() != n_si().len() && n_rph().len() != n_si().len());
+    assert(xsi.len() != xr.len() && xsi.len() != xt.len());
+    reveal_with_fuel(rst_scan, 8);
+    assert(Seq::<char>::empty() + seq!['a'] =~= seq!['a']);
+}
 /// <si/>  -->  no text
 proof fn witness_rst_none()
     ensures ({ let it = rst_item(seq![ev_end(n_si())], 0, n_si()); it.ok && !it.rich && it.text is None && it.end == 0 }),
@@ -572,32 +588,28 @@ proof fn witness_rst_none()
     ensures
         //# C19.reader_events_frame
         final(xml).events() == old(xml).events() && final(xml).pos() >= old(xml).pos(),
-        //# C19.plain_first_t
+        //# C01,C19.plain_first_t
         ({ let it = rst_item(old(xml).events(), old(xml).pos() as int, __arg1.0@);
-           it.ok && !it.rich && unprefixed(__arg1.0@) && no_cdata(old(xml).events(), old(xml).pos() as int, it.end) ==>
+           it.ok && !it.rich && no_cdata(old(xml).events(), old(xml).pos() as int, it.end) ==>
                r is Ok && ostr(r->Ok_0) == it.text }),
-        //# C19.rich_runs_concat
+        //# C01,C19.rich_runs_concat
         ({ let it = rst_item(old(xml).events(), old(xml).pos() as int, __arg1.0@);
-           it.ok && it.rich && unprefixed(__arg1.0@) && no_cdata(old(xml).events(), old(xml).pos() as int, it.end) ==>
+           it.ok && it.rich && no_cdata(old(xml).events(), old(xml).pos() as int, it.end) ==>
                r is Ok && ostr(r->Ok_0) == it.text }),
-        //# C19.reader_left_after_closing_tag
-        ({ let it = rst_item(old(xml).events(), old(xml).pos() as int, __arg1.0@);
-           it.ok && unprefixed(__arg1.0@) && no_cdata(old(xml).events(), old(xml).pos() as int, it.end) ==>
-               final(xml).pos() == it.end + 1 }),
-        //# C01,C19.ns_prefix_string_item
+        //# C01,C19.reader_left_after_closing_tag
         ({ let it = rst_item(old(xml).events(), old(xml).pos() as int, __arg1.0@);
            it.ok && no_cdata(old(xml).events(), old(xml).pos() as int, it.end) ==>
-               r is Ok && ostr(r->Ok_0) == it.text && final(xml).pos() == it.end + 1 }),
+               final(xml).pos() == it.end + 1 }),
         //# C19.cdata_text
         ({ let it = rst_item(old(xml).events(), old(xml).pos() as int, __arg1.0@);
-           it.ok && unprefixed(__arg1.0@) ==>
+           it.ok ==>
                r is Ok && ostr(r->Ok_0) == it.text && final(xml).pos() == it.end + 1 }),
 //@@ before /let mut buf = /
     let ghost ev = xml.events();
     let ghost p0 = xml.pos() as int;
     let ghost cl = closing@;
     let ghost tot = rst_item(ev, p0, cl);
-    let ghost good = tot.ok && unprefixed(cl) && no_cdata(ev, p0, tot.end);
+    let ghost good = tot.ok && no_cdata(ev, p0, tot.end);
     let ghost mut st = rst_init();
     proof { axiom_bytelits(); lemma_names_distinct(); if tot.ok { lemma_rst_end(ev, p0, st, cl); } }
 //@@ loop 0
@@ -605,7 +617,7 @@ proof fn witness_rst_none()
             ev == old(xml).events(), p0 == old(xml).pos(), cl == __arg1.0@,
             xml.events() == ev, xml.pos() >= p0, cl == closing@,
             tot == rst_item(ev, p0, cl),
-            good == (tot.ok && unprefixed(cl) && no_cdata(ev, p0, tot.end)),
+            good == (tot.ok && no_cdata(ev, p0, tot.end)),
             b"r"@ == n_r(), b"t"@ == n_t(), b"rPh"@ == n_rph(),
             n_r() != n_t(), n_r() != n_rph(), n_t() != n_rph(),
             good ==> rst_scan(ev, xml.pos() as int, st, cl) == tot,
@@ -635,6 +647,17 @@ proof fn witness_rst_none()
                 }
             }
         }
+//@@ before /return Ok\(rich_buffer\)/
+                proof {
+                    if good {
+                        let ee = ev[pos];
+                        assert(ee.kind is End && e.ev() == ee && ee.name =~= cl);
+                        // same qualified name ==> same local name: no inner end tag can be mistaken for the item's end tag
+                        assert(ee.name == cl);
+                        assert(ee.local() =~= local_of(cl));
+                        assert(stp is Done);
+                    }
+                }
 //@@ before /if rich_buffer\.is_none\(\)/
                 proof {
                     assert(ev[pos].kind is Start && e.ev() == ev[pos] && e.ev().local() =~= n_r());
@@ -647,7 +670,7 @@ proof fn witness_rst_none()
                         ev == old(xml).events(), p0 == old(xml).pos(), cl == __arg1.0@,
                         xml.events() == ev, xml.pos() >= p0, cl == closing@, xml.pos() > pos, pos < ev.len(),
                         tot == rst_item(ev, p0, cl),
-                        good == (tot.ok && unprefixed(cl) && no_cdata(ev, p0, tot.end)),
+                        good == (tot.ok && no_cdata(ev, p0, tot.end)),
                         good ==> e.ev().name == st1.tname,
                         good ==> st1.in_t && !(st1.lvl is Ph) && st1.plain is None && st1.skip == 0,
                         good ==> rst_scan(ev, xml.pos() as int, st, cl) == tot,
@@ -719,8 +742,8 @@ pub ghost struct SstSt {
 }
 pub ghost struct SstRes { pub ok: bool, pub items: Seq<Option<Seq<char>>>, pub end: int }
 pub open spec fn sst_bad(i: int) -> SstRes { SstRes { ok: false, items: Seq::empty(), end: i } }
-/// the sharedStrings part from event i on; `strict`: additionally require every item to have a text
-pub open spec fn sst_scan(ev: Seq<Ev>, i: int, s: SstSt, strict: bool) -> SstRes
+/// the sharedStrings part from event i on
+pub open spec fn sst_scan(ev: Seq<Ev>, i: int, s: SstSt) -> SstRes
     decreases ev.len() - i
 {
     if i < 0 || i >= ev.len() { sst_bad(i) }
@@ -729,59 +752,55 @@ pub open spec fn sst_scan(ev: Seq<Ev>, i: int, s: SstSt, strict: bool) -> SstRes
         if e.kind is Error { sst_bad(i) }
         else if !s.root {
             // prolog: XML declaration, comments, white space; then the root element
-            if e.kind is Start { if e.local() =~= n_sst() { sst_scan(ev, i + 1, SstSt { root: true, ..s }, strict) } else { sst_bad(i) } }
+            if e.kind is Start { if e.local() =~= n_sst() { sst_scan(ev, i + 1, SstSt { root: true, ..s }) } else { sst_bad(i) } }
             else if e.kind is End { sst_bad(i) }
-            else { sst_scan(ev, i + 1, s, strict) }
+            else { sst_scan(ev, i + 1, s) }
         } else if s.skip > 0 {
             if e.is_tag() && (e.local() =~= n_si() || e.local() =~= n_sst()) { sst_bad(i) }
-            else if e.kind is Start { sst_scan(ev, i + 1, SstSt { skip: s.skip + 1, ..s }, strict) }
-            else if e.kind is End { sst_scan(ev, i + 1, SstSt { skip: (s.skip - 1) as nat, ..s }, strict) }
-            else { sst_scan(ev, i + 1, s, strict) }
+            else if e.kind is Start { sst_scan(ev, i + 1, SstSt { skip: s.skip + 1, ..s }) }
+            else if e.kind is End { sst_scan(ev, i + 1, SstSt { skip: (s.skip - 1) as nat, ..s }) }
+            else { sst_scan(ev, i + 1, s) }
         } else if e.kind is Start {
             if e.local() =~= n_si() {
                 let it = rst_item(ev, i + 1, e.name);
-                if it.ok && i < it.end < ev.len() && !(strict && it.text is None) {
-                    sst_scan(ev, it.end + 1, SstSt { items: s.items.push(it.text), ..s }, strict)
+                if it.ok && i < it.end < ev.len() {
+                    sst_scan(ev, it.end + 1, SstSt { items: s.items.push(it.text), ..s })
                 } else { sst_bad(i) }
             }
             else if e.local() =~= n_sst() { sst_bad(i) }
-            else { sst_scan(ev, i + 1, SstSt { skip: 1, ..s }, strict) }
+            else { sst_scan(ev, i + 1, SstSt { skip: 1, ..s }) }
         } else if e.kind is End {
             if e.local() =~= n_sst() { SstRes { ok: true, items: s.items, end: i } } else { sst_bad(i) }
         } else {
-            sst_scan(ev, i + 1, s, strict)
+            sst_scan(ev, i + 1, s)
         }
     }
 }
-pub open spec fn sst_part(ev: Seq<Ev>, strict: bool) -> SstRes { sst_scan(ev, 0, SstSt { root: false, skip: 0, items: Seq::empty() }, strict) }
-/// every `si` start tag is written without namespace prefix
-pub open spec fn si_unprefixed(ev: Seq<Ev>) -> bool {
-    forall|k: int| 0 <= k < ev.len() && (#[trigger] ev[k]).kind is Start && ev[k].local() =~= n_si() ==> unprefixed(ev[k].name)
-}
+pub open spec fn sst_part(ev: Seq<Ev>) -> SstRes { sst_scan(ev, 0, SstSt { root: false, skip: 0, items: Seq::empty() }) }
 pub open spec fn strs(v: Seq<String>) -> Seq<Seq<char>> { v.map_values(|s: String| s@) }
 pub open spec fn text_or_empty(o: Option<Seq<char>>) -> Seq<char> { match o { Some(t) => t, None => Seq::empty() } }
 pub open spec fn texts(items: Seq<Option<Seq<char>>>) -> Seq<Seq<char>> { items.map_values(|o: Option<Seq<char>>| text_or_empty(o)) }
 pub open spec fn sst_path() -> Seq<char> { "xl/sharedStrings.xml"@ }
 
-proof fn lemma_sst_end(ev: Seq<Ev>, i: int, s: SstSt, strict: bool)
-    requires 0 <= i, sst_scan(ev, i, s, strict).ok,
-    ensures i <= sst_scan(ev, i, s, strict).end < ev.len(),
+proof fn lemma_sst_end(ev: Seq<Ev>, i: int, s: SstSt)
+    requires 0 <= i, sst_scan(ev, i, s).ok,
+    ensures i <= sst_scan(ev, i, s).end < ev.len(),
     decreases ev.len() - i,
 {
     if i < ev.len() {
         let e = ev[i];
         if s.root && s.skip == 0 && e.kind is Start && e.local() =~= n_si() {
             let it = rst_item(ev, i + 1, e.name);
-            lemma_sst_end(ev, it.end + 1, SstSt { items: s.items.push(it.text), ..s }, strict);
+            lemma_sst_end(ev, it.end + 1, SstSt { items: s.items.push(it.text), ..s });
         } else if !(e.kind is End && s.root && s.skip == 0) {
             // every other continuing case moves to i + 1 with some state
-            if !s.root { if e.kind is Start { lemma_sst_end(ev, i + 1, SstSt { root: true, ..s }, strict); } else { lemma_sst_end(ev, i + 1, s, strict); } }
+            if !s.root { if e.kind is Start { lemma_sst_end(ev, i + 1, SstSt { root: true, ..s }); } else { lemma_sst_end(ev, i + 1, s); } }
             else if s.skip > 0 {
-                if e.kind is Start { lemma_sst_end(ev, i + 1, SstSt { skip: s.skip + 1, ..s }, strict); }
-                else if e.kind is End { lemma_sst_end(ev, i + 1, SstSt { skip: (s.skip - 1) as nat, ..s }, strict); }
-                else { lemma_sst_end(ev, i + 1, s, strict); }
-            } else if e.kind is Start { lemma_sst_end(ev, i + 1, SstSt { skip: 1, ..s }, strict); }
-            else { lemma_sst_end(ev, i + 1, s, strict); }
+                if e.kind is Start { lemma_sst_end(ev, i + 1, SstSt { skip: s.skip + 1, ..s }); }
+                else if e.kind is End { lemma_sst_end(ev, i + 1, SstSt { skip: (s.skip - 1) as nat, ..s }); }
+                else { lemma_sst_end(ev, i + 1, s); }
+            } else if e.kind is Start { lemma_sst_end(ev, i + 1, SstSt { skip: 1, ..s }); }
+            else { lemma_sst_end(ev, i + 1, s); }
         }
     }
 }
@@ -792,44 +811,40 @@ proof fn lemma_sst_end(ev: Seq<Ev>, i: int, s: SstSt, strict: bool)
     ensures
         //# C19.sst_absent_part
         part_events(old(self).zip, sst_path()) is None ==> r is Ok && final(self).strings@ == old(self).strings@,
-        //# C19.sst_items_in_order
+        //# C01,C19.sst_items_in_order
         ({ let evs = part_events(old(self).zip, sst_path());
-           evs is Some && part_readable(old(self).zip, sst_path()) && sst_part(evs->Some_0, true).ok
-             && si_unprefixed(evs->Some_0) && no_cdata(evs->Some_0, 0, sst_part(evs->Some_0, true).end) ==>
-               r is Ok && strs(final(self).strings@) =~= strs(old(self).strings@) + texts(sst_part(evs->Some_0, true).items) }),
-        //# C19.sst_index_alignment
+           evs is Some && part_readable(old(self).zip, sst_path()) && sst_part(evs->Some_0).ok
+             && no_cdata(evs->Some_0, 0, sst_part(evs->Some_0).end) ==>
+               r is Ok && strs(final(self).strings@) =~= strs(old(self).strings@) + texts(sst_part(evs->Some_0).items) }),
+        //# C01,C19.sst_index_alignment
         ({ let evs = part_events(old(self).zip, sst_path());
-           evs is Some && part_readable(old(self).zip, sst_path()) && sst_part(evs->Some_0, false).ok
-             && si_unprefixed(evs->Some_0) && no_cdata(evs->Some_0, 0, sst_part(evs->Some_0, false).end) ==>
-               r is Ok && strs(final(self).strings@) =~= strs(old(self).strings@) + texts(sst_part(evs->Some_0, false).items) }),
-        //# C01,C19.sst_ns_prefix
-        ({ let evs = part_events(old(self).zip, sst_path());
-           evs is Some && part_readable(old(self).zip, sst_path()) && sst_part(evs->Some_0, true).ok
-             && no_cdata(evs->Some_0, 0, sst_part(evs->Some_0, true).end) ==>
-               r is Ok && strs(final(self).strings@) =~= strs(old(self).strings@) + texts(sst_part(evs->Some_0, true).items) }),
+           evs is Some && part_readable(old(self).zip, sst_path()) && sst_part(evs->Some_0).ok
+             && no_cdata(evs->Some_0, 0, sst_part(evs->Some_0).end) ==>
+               r is Ok && final(self).strings@.len() == old(self).strings@.len() + sst_part(evs->Some_0).items.len()
+               && forall|i: int| 0 <= i < sst_part(evs->Some_0).items.len() ==>
+                      (#[trigger] final(self).strings@[old(self).strings@.len() + i])@ == text_or_empty(sst_part(evs->Some_0).items[i]) }),
         //# C19.sst_cdata_text
         ({ let evs = part_events(old(self).zip, sst_path());
-           evs is Some && part_readable(old(self).zip, sst_path()) && sst_part(evs->Some_0, true).ok
-             && si_unprefixed(evs->Some_0) ==>
-               r is Ok && strs(final(self).strings@) =~= strs(old(self).strings@) + texts(sst_part(evs->Some_0, true).items) }),
+           evs is Some && part_readable(old(self).zip, sst_path()) && sst_part(evs->Some_0).ok ==>
+               r is Ok && strs(final(self).strings@) =~= strs(old(self).strings@) + texts(sst_part(evs->Some_0).items) }),
 //@@ before /let mut buf = /
         let ghost ev = xml.events();
-        let ghost tot = sst_part(ev, true);
-        let ghost good = tot.ok && si_unprefixed(ev) && no_cdata(ev, 0, tot.end);
+        let ghost tot = sst_part(ev);
+        let ghost good = tot.ok && no_cdata(ev, 0, tot.end);
         let ghost mut st = SstSt { root: false, skip: 0, items: Seq::empty() };
         let ghost s0 = self.strings@;
         proof {
             axiom_bytelits(); lemma_names_distinct();
-            if tot.ok { lemma_sst_end(ev, 0, st, true); }
+            if tot.ok { lemma_sst_end(ev, 0, st); }
             assert(strs(s0) + texts(st.items) =~= strs(s0));
         }
 //@@ loop 0
             invariant_except_break
-                good ==> sst_scan(ev, xml.pos() as int, st, true) == tot,
+                good ==> sst_scan(ev, xml.pos() as int, st) == tot,
             invariant
-                ev == xml.events(), tot == sst_part(ev, true),
+                ev == xml.events(), tot == sst_part(ev),
                 part_events(old(self).zip, sst_path()) == Some(ev), s0 == old(self).strings@,
-                good == (tot.ok && si_unprefixed(ev) && no_cdata(ev, 0, tot.end)),
+                good == (tot.ok && no_cdata(ev, 0, tot.end)),
                 b"si"@ == n_si(), b"sst"@ == n_sst(), n_si() != n_sst(),
                 good ==> xml.pos() <= tot.end + 1 && tot.end < ev.len(),
                 good ==> strs(self.strings@) =~= strs(s0) + texts(st.items),
@@ -841,7 +856,7 @@ proof fn lemma_sst_end(ev: Seq<Ev>, i: int, s: SstSt, strict: bool)
             let ghost st0 = st;
             proof {
                 if good {
-                    lemma_sst_end(ev, pos, st, true);
+                    lemma_sst_end(ev, pos, st);
                     let e = ev[pos];
                     if !st.root { if e.kind is Start { st = SstSt { root: true, ..st }; } }
                     else if st.skip > 0 {
@@ -850,29 +865,39 @@ proof fn lemma_sst_end(ev: Seq<Ev>, i: int, s: SstSt, strict: bool)
                     } else if e.kind is Start && !(e.local() =~= n_si()) { st = SstSt { skip: 1, ..st }; }
                 }
             }
-//@@ before /if let Some\(s\) = read_string/
+//@@ before /let s = read_string/
                     let ghost it = rst_item(ev, pos + 1, ev[pos].name);
                     let ghost sv0 = self.strings@;
                     proof {
                         assert(pos < ev.len() && ev[pos].kind is Start && e.ev() == ev[pos] && e.ev().local() =~= n_si());
                         if good {
                             assert(st0.root && st0.skip == 0);
-                            assert(it.ok && it.text is Some);
-                            lemma_sst_end(ev, it.end + 1, SstSt { items: st0.items.push(it.text), ..st0 }, true);
-                            assert(unprefixed(ev[pos].name));
+                            assert(it.ok);
+                            lemma_sst_end(ev, it.end + 1, SstSt { items: st0.items.push(it.text), ..st0 });
                             assert(no_cdata(ev, pos + 1, it.end));
                         }
                     }
-//@@ after /self\.strings\.push\(s\);\s*\}/
+//@@ after /self\.strings\.push\(s\);/
                     proof {
                         if good {
                             st = SstSt { items: st0.items.push(it.text), ..st0 };
-                            assert(texts(st.items) =~= texts(st0.items).push(it.text->Some_0));
+                            assert(texts(st.items) =~= texts(st0.items).push(text_or_empty(it.text)));
                             assert(self.strings@.len() == sv0.len() + 1);
-                            assert(strs(self.strings@) =~= strs(sv0).push(it.text->Some_0));
+                            assert(strs(self.strings@) =~= strs(sv0).push(text_or_empty(it.text)));
                             assert(strs(self.strings@) =~= strs(s0) + texts(st.items));
                         }
                     }
+//@@ before /Ok\(\(\)\)\s*\}\s*$/
+        proof {
+            if good {
+                let items = tot.items;
+                assert forall|i: int| 0 <= i < items.len() implies (#[trigger] self.strings@[s0.len() + i])@ == text_or_empty(items[i]) by {
+                    assert(strs(self.strings@)[s0.len() + i] == (strs(s0) + texts(items))[s0.len() + i]);
+                    assert(texts(items)[i] == text_or_empty(items[i]));
+                }
+                assert(strs(self.strings@).len() == strs(s0).len() + texts(items).len());
+            }
+        }
 //@@ end
 //@@ endimpl
 
@@ -1290,6 +1315,9 @@ Some(__t) if __t == b"is" =>
 map_err(|e| XlsxError::ParseFloat(e))
 //@@ sig
     ensures
+        //# C06.shared_string_index_out_of_range_rejected
+        t_is(c_element.ev().attrs, n_s()) && !(atoi_usize(utf8(v@)) is Some && atoi_usize(utf8(v@))->Some_0 < strings@.len())
+            && atoi_usize(utf8(v@)) is Some ==> r is Err,
         //# C01,C19.value_typing_shared_string
         t_is(c_element.ev().attrs, n_s()) && atoi_usize(utf8(v@)) is Some && atoi_usize(utf8(v@))->Some_0 < strings@.len() ==>
             (r matches Ok(DataRef::SharedString(x)) && x@ == strings@[atoi_usize(utf8(v@))->Some_0 as int]@),
@@ -1393,7 +1421,7 @@ __n if __n == b"f" =>
                r is Ok && dv(r->Ok_0) == ty->Some_0 && final(xml).pos() == tx.end + 1 }),
         //# C01,C19.value_from_inline_string
         ({ let it = rst_item(old(xml).events(), old(xml).pos() as int, e.ev().name);
-           e.ev().local() =~= n_is() && it.ok && unprefixed(e.ev().name) && no_cdata(old(xml).events(), old(xml).pos() as int, it.end) ==>
+           e.ev().local() =~= n_is() && it.ok && no_cdata(old(xml).events(), old(xml).pos() as int, it.end) ==>
                r is Ok && dv(r->Ok_0) == inline_dv(it.text) && final(xml).pos() == it.end + 1 }),
         //# C01.formula_element_skipped
         ({ let ev = old(xml).events();
@@ -1523,10 +1551,6 @@ pub open spec fn next_scan(ev: Seq<Ev>, i: int, cur: Cur, cx: ShCtx) -> NextRes
         } else { next_scan(ev, i + 1, cur, cx) }
     }
 }
-/// every inline-string start tag `is` is written without namespace prefix
-pub open spec fn is_unprefixed(ev: Seq<Ev>) -> bool {
-    forall|k: int| 0 <= k < ev.len() && (#[trigger] ev[k]).kind is Start && ev[k].local() =~= n_is() ==> unprefixed(ev[k].name)
-}
 proof fn lemma_cell_end(ev: Seq<Ev>, i: int, cattrs: Seq<Attr>, cur: DV, seen: bool, cx: ShCtx)
     requires 0 <= i, cell_scan(ev, i, cattrs, cur, seen, cx).ok,
     ensures i <= cell_scan(ev, i, cattrs, cur, seen, cx).end < ev.len(),
@@ -1592,7 +1616,7 @@ proof fn witness_next_scan(cx: ShCtx)
                       ev_start(n_v()), ev_text("1"@), ev_end(n_v()), ev_end(n_c())];
         let nx = next_scan(ev, 0, Cur { row: 0, col: 0 }, cx);
         nx.ok && nx.cell == Some(((2int, 1int), DV::Bool(true))) && nx.cur == (Cur { row: 2, col: 2 }) && nx.end == 5
-            && is_unprefixed(ev) && no_cdata(ev, 0, nx.end) }),
+            && no_cdata(ev, 0, nx.end) }),
 {
     let ra = Attr { key: n_r(), raw: seq![0x33u8], val: Seq::empty(), val_ok: true, err: false };
     let ca = Attr { key: n_r(), raw: seq![0x42u8, 0x33u8], val: Seq::empty(), val_ok: true, err: false };
@@ -1632,28 +1656,28 @@ proof fn witness_next_scan(cx: ShCtx)
         //# C01.cell_position
         ({ let ev = old(self).g_events();
            let nx = next_scan(ev, old(self).g_pos() as int, old(self).g_cur(), old(self).g_cx());
-           nx.ok && nx.cell is Some && is_unprefixed(ev) && no_cdata(ev, old(self).g_pos() as int, nx.end) ==>
+           nx.ok && nx.cell is Some && no_cdata(ev, old(self).g_pos() as int, nx.end) ==>
                (r matches Ok(Some(c)) && c.p().0 == nx.cell->Some_0.0.0 && c.p().1 == nx.cell->Some_0.0.1) }),
         //# C01,C10.cell_value
         ({ let ev = old(self).g_events();
            let nx = next_scan(ev, old(self).g_pos() as int, old(self).g_cur(), old(self).g_cx());
-           nx.ok && nx.cell is Some && is_unprefixed(ev) && no_cdata(ev, old(self).g_pos() as int, nx.end) ==>
+           nx.ok && nx.cell is Some && no_cdata(ev, old(self).g_pos() as int, nx.end) ==>
                (r matches Ok(Some(c)) && dv(c.v()) == nx.cell->Some_0.1) }),
         //# C01.cursor_update
         ({ let ev = old(self).g_events();
            let nx = next_scan(ev, old(self).g_pos() as int, old(self).g_cur(), old(self).g_cx());
-           nx.ok && is_unprefixed(ev) && no_cdata(ev, old(self).g_pos() as int, nx.end) ==>
+           nx.ok && no_cdata(ev, old(self).g_pos() as int, nx.end) ==>
                final(self).g_cur() == nx.cur && final(self).g_pos() == nx.end + 1 }),
         //# C01.end_of_sheet_data
         ({ let ev = old(self).g_events();
            let nx = next_scan(ev, old(self).g_pos() as int, old(self).g_cur(), old(self).g_cx());
-           nx.ok && nx.cell is None && is_unprefixed(ev) && no_cdata(ev, old(self).g_pos() as int, nx.end) ==> r matches Ok(None) }),
+           nx.ok && nx.cell is None && no_cdata(ev, old(self).g_pos() as int, nx.end) ==> r matches Ok(None) }),
 //@@ body
         let ghost ev = self.xml.events();
         let ghost p0 = self.xml.pos() as int;
         let ghost cx = ShCtx { strings: self.strings@, formats: self.formats@, is_1904: self.is_1904 };
         let ghost tot = next_scan(ev, p0, Cur { row: self.row_index as int, col: self.col_index as int }, cx);
-        let ghost good = tot.ok && is_unprefixed(ev) && no_cdata(ev, p0, tot.end);
+        let ghost good = tot.ok && no_cdata(ev, p0, tot.end);
         proof {
             axiom_bytelits();
             assert(n_row().len() != n_c().len() && n_row().len() != n_sheetdata().len() && n_c().len() != n_sheetdata().len());
@@ -1666,7 +1690,7 @@ proof fn witness_next_scan(cx: ShCtx)
                 self.strings@ == old(self).strings@, self.formats@ == old(self).formats@, self.is_1904 == old(self).is_1904,
                 cx == (ShCtx { strings: old(self).strings@, formats: old(self).formats@, is_1904: old(self).is_1904 }),
                 tot == next_scan(ev, p0, Cur { row: old(self).row_index as int, col: old(self).col_index as int }, cx),
-                good == (tot.ok && is_unprefixed(ev) && no_cdata(ev, p0, tot.end)),
+                good == (tot.ok && no_cdata(ev, p0, tot.end)),
                 b"row"@ == n_row(), b"c"@ == n_c(), b"sheetData"@ == n_sheetdata(), b"r"@ == n_r(),
                 b"v"@ == n_v(), b"is"@ == n_is(), b"f"@ == n_f(),
                 !(n_v() =~= n_f()), !(n_v() =~= n_is()), !(n_is() =~= n_f()),
@@ -1697,7 +1721,7 @@ proof fn witness_next_scan(cx: ShCtx)
                             ev == old(self).xml.events(), p0 == old(self).xml.pos(), self.xml.events() == ev, self.xml.pos() > gp, gp >= p0, gp < ev.len(),
                             self.strings@ == old(self).strings@, self.formats@ == old(self).formats@, self.is_1904 == old(self).is_1904,
                             cx == (ShCtx { strings: old(self).strings@, formats: old(self).formats@, is_1904: old(self).is_1904 }),
-                            good == (tot.ok && is_unprefixed(ev) && no_cdata(ev, p0, tot.end)),
+                            good == (tot.ok && no_cdata(ev, p0, tot.end)),
                             tot == next_scan(ev, p0, Cur { row: old(self).row_index as int, col: old(self).col_index as int }, cx),
                             cattrs == c_element.ev().attrs,
                             b"c"@ == n_c(), b"v"@ == n_v(), b"is"@ == n_is(), b"f"@ == n_f(),
@@ -1745,7 +1769,6 @@ proof fn witness_next_scan(cx: ShCtx)
                                             assert(!seen && it.ok && ipos < it.end);
                                             assert(cell_scan(ev, it.end + 1, cattrs, inline_dv(it.text), true, cx) == ctot);
                                             lemma_cell_end(ev, it.end + 1, cattrs, inline_dv(it.text), true, cx);
-                                            assert(unprefixed(ce.name));
                                             assert(no_cdata(ev, ipos + 1, it.end));
                                         } else if ce.local() =~= n_f() {
                                             let k = rte_stop(ev, ipos + 1, ce.name, 0);
